@@ -103,7 +103,7 @@ def run(sc, cfg):
         elif kind == "set":
             objs[op[1]].set_randstate(hands[op[2]])
         elif kind == "mk":
-            hands.append(RandState.mkFromSeed(op[1]))
+            hands.append(RandState.mkFromSeed(op[1], op[2]) if len(op) > 2 else RandState.mkFromSeed(op[1]))
         elif kind == "drawh":
             rec = {"draw": hands[op[1]].randint(0, 1 << 30)}
         elif kind == "global":
